@@ -46,6 +46,11 @@ pub enum Defect {
     ProviderForeign,
     ProviderNotReadyErr,
     WrongSignature,
+    SignatureTooLong,
+    SignatureTooShort,
+    SignatureEmpty,
+    SignatureNonHex,
+    SignatureUpperWrong,
 }
 
 pub const ALL_DEFECTS: &[Defect] = &[
@@ -80,6 +85,11 @@ pub const ALL_DEFECTS: &[Defect] = &[
     Defect::ProviderForeign,
     Defect::ProviderNotReadyErr,
     Defect::WrongSignature,
+    Defect::SignatureTooLong,
+    Defect::SignatureTooShort,
+    Defect::SignatureEmpty,
+    Defect::SignatureNonHex,
+    Defect::SignatureUpperWrong,
 ];
 
 impl Defect {
@@ -99,7 +109,7 @@ impl Defect {
             Arity4 | Arity6 => R_ARITY,
             WrongRegion | WrongService | WrongTerminator | WrongScopeDate => R_SCOPE,
             ProviderInvalidToken | ProviderExpired | ProviderForeign | ProviderNotReadyErr => R_PROVIDER,
-            WrongSignature => R_SIGNATURE,
+            WrongSignature | SignatureTooLong | SignatureTooShort | SignatureEmpty | SignatureNonHex | SignatureUpperWrong => R_SIGNATURE,
         }
     }
 }
@@ -251,17 +261,33 @@ pub fn build(dc: &DefectCase, defects: &[Defect]) -> Case {
         let kept: Vec<&str> = rest.split(", ").filter(|x| !x.starts_with(&format!("{}=", name))).collect();
         format!("{} {}", alg, kept.join(", "))
     };
-    if has(WrongSignature) {
+    // signature-shaped defects: all are refused by the final comparison only
+    let sig_edit: Option<Box<dyn Fn(&str) -> String>> = if has(WrongSignature) {
+        Some(Box::new(|s: &str| format!("{}{}", if s.starts_with('0') { "1" } else { "0" }, &s[1..])))
+    } else if has(SignatureTooLong) {
+        Some(Box::new(|s: &str| format!("{}0", s)))
+    } else if has(SignatureTooShort) {
+        Some(Box::new(|s: &str| s[..s.len().saturating_sub(1)].to_string()))
+    } else if has(SignatureEmpty) {
+        Some(Box::new(|_s: &str| String::new()))
+    } else if has(SignatureNonHex) {
+        Some(Box::new(|s: &str| "Z".repeat(s.len())))
+    } else if has(SignatureUpperWrong) {
+        Some(Box::new(|s: &str| format!("{}{}", if s.starts_with('A') { "B" } else { "A" }, &s[1..]).to_ascii_uppercase()))
+    } else {
+        None
+    };
+    if let Some(f) = sig_edit {
         if carrier == Carrier::Header {
             edit_auth(&mut req, &|v| {
                 let p = v.find("Signature=").unwrap() + 10;
-                let c = if &v[p..p + 1] == "0" { "1" } else { "0" };
-                format!("{}{}{}", &v[..p], c, &v[p + 1..])
+                let e = v[p..].find(',').map(|x| p + x).unwrap_or(v.len());
+                format!("{}{}{}", &v[..p], f(&v[p..e]), &v[e..])
             });
         } else {
             let p = req.uri.find("X-Amz-Signature=").unwrap() + 16;
-            let c = if &req.uri[p..p + 1] == "0" { "1" } else { "0" };
-            req.uri = format!("{}{}{}", &req.uri[..p], c, &req.uri[p + 1..]);
+            let e = req.uri[p..].find('&').map(|x| p + x).unwrap_or(req.uri.len());
+            req.uri = format!("{}{}{}", &req.uri[..p], f(&req.uri[p..e]), &req.uri[e..]);
         }
     }
     match carrier {
@@ -386,6 +412,7 @@ pub fn check_defects(dc: &DefectCase, cc: &mut CaseCtx) -> CheckResult {
     if defects.contains(&NoCarrier) && defects.contains(&BothCarriers) {
         defects.retain(|d| *d != BothCarriers);
     }
+    reduce_signature_defects(&mut defects);
     if dc.query_carrier {
         // the query carrier has no free-form parameter list
         defects.retain(|d| *d != ParamNoEquals);
@@ -480,4 +507,18 @@ pub fn check_kind_table(k: &Kind, cc: &mut CaseCtx) -> CheckResult {
         return Err(Failure::new("foreign-error-conversion", format!("foreign error became {:?}", exec::kind_of(&conv))));
     }
     Ok(())
+}
+
+/// at most one signature-shaped defect per request
+pub fn reduce_signature_defects(defects: &mut Vec<Defect>) {
+    let mut seen = false;
+    defects.retain(|d| {
+        if d.rank() == R_SIGNATURE {
+            if seen {
+                return false;
+            }
+            seen = true;
+        }
+        true
+    });
 }
